@@ -125,6 +125,8 @@ def goal_replay(goal, assumptions=(), encs=None, tol=1e-6, npoints=12, label="")
                     if z3.is_expr(a) and (_names(a) - allvars - set(ack) - set(sym.CTX.consts)):
                         if a.get_id() in _definitional_ids():
                             continue  # defining fact of a square root that this goal does not mention
+                        if not (_names(a) & (allvars | set(ack))):
+                            continue  # entirely about symbols of other encodings (e.g. ranges of draws this goal does not use)
                         raise KeyError("an assumption mentions symbols without a concrete meaning here")
                     if not ne.holds(a, 1e-7):
                         ok = False
